@@ -269,6 +269,10 @@ func equals(fr *frame, t types.Type, x, y value) value {
 		if x.t == nil {
 			return true
 		}
+		if xr, ok := x.v.(rtype); ok {
+			yr, ok := yi.v.(rtype)
+			return ok && types.Identical(xr.t, yr.t)
+		}
 		if !types.Comparable(x.t) {
 			panic(targetPanic{iface{fr.i.runtimeErrorString, "runtime error: comparing uncomparable type " + x.t.String()}})
 		}
